@@ -19,7 +19,8 @@ EXPLANATION = (
     "None handles), fires exactly once, cancels the timeout first and disarms the holder. K3 - every path of the loss "
     "closure: keepalive stop, subclass clean-up, IDLE, then exactly one scheduled onDisconnection(reason) when a handler "
     "is set and none otherwise; no path leaves by exception, no fired handle is cancelled. Orderings of CONNACK, expiry "
-    "and loss as behaviour are not explored. K0: the premises of the framing lemma (every rule of C03) hold, a necessary condition of anything said about inbound packets.")
+    "and loss as behaviour are not explored. K0: the premises of the framing lemma (every rule of C03) hold, a necessary condition of anything said about inbound packets. "
+    " K-MODE - the session mode the loss path consults is recorded by the accepted connect() only, before the CONNECT is written; K3 also refuses a handle cancelled on some path and left stored, which connectionLost would cancel again (AlreadyCancelled before the clean-up).")
 ASSUMPTIONS = ["a transport delivers no dataReceived after abortConnection()"]
 
 CONN = ("attr", SELF, "connReq")
@@ -69,6 +70,12 @@ def check(ctx):
         eng = cat.eng
         cq = cls_short(cls.qual)
         hd = handles(a, cls)
+        # "pending requests have been failed or preserved as the session mode demands": the mode the loss path consults must be
+        # the one of this connection's CONNECT from the moment it is written, whatever becomes of the handshake
+        from ..lifecycle import rule_session_field
+        rule_session_field(ctx, cat, "K-MODE", "cleanStart", "the session mode",
+                           "a connection lost (or refused, or timed out) during the handshake is cleaned up under the previous or the default "
+                           "session mode: requests a persistent session must keep are failed, or requests a clean session must fail are kept")
         # ---------------- K1 ----------------
         for tr in contexts(cat):
             if not (tr.kind == "API" and tr.name == "connect" and tr.slot == "IDLE"):
@@ -279,6 +286,12 @@ def check(ctx):
                        construct="%s/loss/fired-handle/%s" % (cls.qual, ".".join(loc)),
                        msg="%s leaves its fired handle in %s; connectionLost cancels it: AlreadyCalled skips the clean-up" % (short(ent.func.qual), ".".join(loc)))
                 break
+        for tr, e, loc, tr2, e2 in hd.cancelled_kept():
+            ctx.ob("K3", "%s connectionLost cancels no handle that was cancelled before (%s)" % (cq, tr.label()), False, where=where(e), function=e.func,
+                   construct="%s/cancelled-handle-kept/%s" % (e.func, ".".join(loc)),
+                   msg="%s cancels the handle in %s and leaves it stored; connectionLost (%s) finds it not None and cancels it again: "
+                       "AlreadyCancelled leaves connectionLost before the clean-up, the state reset and the notification" % (
+                           tr.label(), ".".join(loc), where(e2)))
         for tr, e, loc, why in hd.none_deref():
             if tr.kind == "LOSS" or (tr.kind == "NET" and tr.name == "CONNACK"):
                 ctx.ob("K3", "%s no call on a None handle in %s" % (cq, tr.label()), False, where=where(e), function=e.func,
